@@ -10,7 +10,7 @@ DistOK(d) == IF Ev.dist = "NA" \/ d = "None" THEN TRUE ELSE ChkB("divergence", C
 CritOK == IF Ev.c.crit = "NA" THEN TRUE ELSE Chk("critical value", crit', Ev.c.crit)
 SUpd == /\ More /\ Ev.op = "update" /\ dcfg.kind = "stream"
         /\ StreamStep(Ev.x, Ev.c) /\ Counters /\ DistOK(dist') /\ CritOK /\ Adv
-SRst == /\ More /\ Ev.op = "reset" /\ dcfg.kind = "stream" /\ StreamReset /\ Counters /\ Adv
+SRst == /\ More /\ Ev.op = "reset" /\ StreamReset /\ Counters /\ Adv      \* both kinds: reset() drops the reference (a batch detector then takes its next batch as the reference)
 BRef == /\ More /\ Ev.op = "set_reference" /\ SetReference(Ev.data, Ev.c) /\ Counters /\ CritOK /\ Adv
 BUpd == /\ More /\ Ev.op = "update" /\ dcfg.kind = "batch"
         /\ BatchStep(Ev.data, Ev.c0) /\ Counters /\ DistOK(dist') /\ CritOK /\ Adv
